@@ -32,6 +32,7 @@ type c09Frame struct {
 type c09Case struct {
 	CW, CH int
 	Frames []c09Frame
+	BG     [4]byte // Animation.BackgroundColor: documented as never painted by playback (disposal clears to transparent)
 }
 
 func genC09(t *rapid.T) *c09Case {
@@ -42,6 +43,7 @@ func genC09(t *rapid.T) *c09Case {
 	}
 	c.CW = rapid.IntRange(1, maxC).Draw(t, "cw")
 	c.CH = rapid.IntRange(1, maxC).Draw(t, "ch")
+	c.BG = rapid.SampledFrom([][4]byte{{}, {}, {255, 255, 255, 255}, {9, 8, 7, 255}, {10, 200, 30, 128}, {1, 2, 3, 0}}).Draw(t, "bg")
 	n := rapid.IntRange(1, 9).Draw(t, "nFrames")
 	for i := 0; i < n; i++ {
 		f := c09Frame{}
@@ -107,7 +109,7 @@ func (f *c09Frame) image() image.Image {
 }
 
 func buildAnimation(c *c09Case) (*animation.Animation, []compositor.Frame) {
-	an := &animation.Animation{CanvasWidth: c.CW, CanvasHeight: c.CH}
+	an := &animation.Animation{CanvasWidth: c.CW, CanvasHeight: c.CH, BackgroundColor: color.NRGBA{R: c.BG[0], G: c.BG[1], B: c.BG[2], A: c.BG[3]}}
 	var mf []compositor.Frame
 	for i := range c.Frames {
 		f := &c.Frames[i]
